@@ -45,6 +45,11 @@ impl<R: Read> ZipStreamReader<R> {
             visitor.visit_file(&mut file)?;
         }
 
+        // `read_zipfile_from_stream` returned `None` because it read the signature of the first
+        // central directory header; that header must be parsed without expecting it again.
+        let first = central_header_to_zip_file_inner(&mut self.0, 0, 0).map(ZipStreamFileMetadata)?;
+        visitor.visit_additional_metadata(&first)?;
+
         while let Some(metadata) = self.parse_central_directory()? {
             visitor.visit_additional_metadata(&metadata)?;
         }
